@@ -1,5 +1,6 @@
 """Function verification context and control: paths, loops, obligations."""
 import sys
+import os
 import time
 import z3
 from .sym import I, B, Val, Loc, scalar, sort_of, fresh_name, pathstr, OutOfSubset, EngineError, MATHINT
@@ -417,20 +418,53 @@ class FnCtx:
 
         def resolver(n, ev):
             return self.resolve_name(getattr(ev, 'name_st', None) or ev.st, fr, n)
-        return Ev(self, st, env, self.contract.pkg, old, self.contract.imports, resolver)
+        e = Ev(self, st, env, self.contract.pkg, old, self.contract.imports, resolver)
+        e.last_resort = lambda n: self.resolve_undefined(getattr(e, 'name_st', None) or e.st, fr, n)
+        return e
 
     def resolve_name(self, st, fr, n):
         """source identifier -> current value, through DebugRef name tracking"""
         ent = st.names.get(n) if fr is self.top else None
+        if ent is not None and ent[1] not in st.regs:
+            ent = None
         if ent is None:
             return None
         kind, reg = ent
-        if reg not in st.regs:
-            return None
         v = st.regs[reg]
         if kind == 'addr':
             return st.load(st.ptr_loc(v))
         return v
+
+    def resolve_undefined(self, st, fr, n):
+        """a variable of the function under contract that has no value on this path (declared in
+        a branch not taken, or held in different registers on merged paths): an arbitrary value of
+        its type, so that an obligation mentioning it has to hold whatever it is. Asked only after
+        every other meaning of the identifier (constant, package variable, type) has failed."""
+        t = self.ident_types().get(n) if fr is self.top else None
+        if t is None or n not in getattr(st, 'names_seen', ()):
+            return None     # not a local, or one that no path to here has declared yet
+        memo = self.__dict__.setdefault('_undef_locals', {})
+        if n not in memo:
+            memo[n] = V.fresh_val(self.types, t, 'undef_' + n)
+        return memo[n]
+
+    def ident_types(self):
+        if not hasattr(self, '_ident_types'):
+            seen = {}
+            for blk in self.fn['blocks']:
+                for ins in blk['instrs']:
+                    if ins['op'] != 'DebugRef' or not ins.get('ident'):
+                        continue
+                    if ins['x'].get('k') not in ('reg', 'param', 'freevar'):
+                        continue     # a package-level variable or a constant, not a local
+                    t = ins['x'].get('type')
+                    if t is None:
+                        continue
+                    if ins.get('addr'):
+                        t = self.types.elem(t)
+                    seen.setdefault(ins['ident'], set()).add(self.types.norm(t))
+            self._ident_types = {n: next(iter(ts)) for n, ts in seen.items() if len(ts) == 1}
+        return self._ident_types
 
     def const_cell_ids(self):
         if not hasattr(self, '_const_ids'):
@@ -706,6 +740,7 @@ class FnCtx:
                 st.regs[ins['name']] = newv[ins['name']]
                 if ins.get('comment') and fr is self.top:
                     st.names[ins['comment']] = ('reg', ins['name'])
+                    st.names_seen.add(ins['comment'])
         # join point of an enclosing fork: hand the state to the collector
         if st.stops and st.stops[-1][0] == (id(fr), b):
             key, coll = st.stops[-1]
@@ -797,7 +832,16 @@ class FnCtx:
                 self.solver.pop()
         if J is None or not coll:
             return
-        self.continue_from_join(st, coll, base_len, base_pc, lambda m: self.enter_block(m, fr, J, None),
+        def at_join(m):
+            # an enclosing fork may wait at the same block (short-circuit conditions): its collector
+            # takes the state; the phis of the join were assigned when the arms arrived
+            if os.environ.get('VCGEN_HANDOVER', '1') == '1' and m.stops and m.stops[-1][0] == (id(fr), J):
+                key, outer = m.stops[-1]
+                m.stops = m.stops[:-1]
+                outer.append(m)
+                return
+            self.enter_block(m, fr, J, None)
+        self.continue_from_join(st, coll, base_len, base_pc, at_join,
                                 live=cfg.uses_from(J) if fr is self.top else None)
 
     def continue_from_join(self, parent, coll, base_len, base_pc, k, live=None):
@@ -863,6 +907,8 @@ class FnCtx:
     # ------------------------------------------------------------ return
     def do_return(self, st, fr, vals, ins):
         if fr.on_return is not None:
+            # joins of this (inlined) frame that the returning arm never reached
+            st.stops = [x for x in st.stops if x[0][0] != id(fr)]
             fr.on_return(st, vals)
             return
         if not self.path_feasible():
@@ -871,6 +917,8 @@ class FnCtx:
         self.mark_covered(st)
         self.npaths += 1
         self.returns += 1
+        if os.environ.get('VCGEN_TRACE_PATHS'):
+            print('PATH-END return', st.trace, file=sys.stderr)
         self.check_post(st, fr, vals, ins)
 
     def result_env(self, vals):
